@@ -28,8 +28,10 @@ Trace == ndJsonDeserialize("trace.ndjson")
 
 VARIABLES l, bad, stats, tainted,
           ntouch,    \* AddFT(a, ft, 0) calls so far in this history (the only caller of accountObject.touch())
-          revTouch   \* a revert of this history undid such a call
-tvars == <<vars, l, bad, stats, tainted, ntouch, revTouch>>
+          revTouch,  \* a revert of this history undid such a call
+          ngc,       \* GetCommittedState calls so far in this history
+          revGC      \* a revert of this history spanned such a call
+tvars == <<vars, l, bad, stats, tainted, ntouch, revTouch, ngc, revGC>>
 
 Tag(c, t) == IF c THEN <<>> ELSE <<t>>
 
@@ -63,7 +65,12 @@ JudgeRevert(e) ==
   IF i = 0 THEN <<"Revert.unknownSnapshot">>
   ELSE LET saved == snaps[i][2]
            fs == SelectSeq([f \in 1..NF |-> IF SameField(saved, e.state, f) THEN 0 ELSE f], LAMBDA x : x # 0)
-       IN  [k \in 1..Len(fs) |-> RestoreTag(fs[k])]
+           (* a GetCommittedState inside the reverted span is a known defect of its own (it overwrites
+              the cached pending value un-journaled); it gets its own signature so that other failures
+              to restore the EVM word keep theirs *)
+           gc == snaps[i][4] < ngc
+       IN  [k \in 1..Len(fs) |-> IF gc /\ FieldName[fs[k]] = "stateWord"
+                                   THEN "Inv.RevertRestores.stateWordAfterCommittedRead" ELSE RestoreTag(fs[k])]
 
 (* the root oracle; a difference is classified by the account leaves that differ between  *)
 (* the two committed tries (logged by the driver), so that different defects get          *)
@@ -97,7 +104,8 @@ TwinTag(f) == "Inv.QueriesAsIfNeverExecuted." \o FieldName[f]
 JudgeTwinQueries(e) ==
   IF e.stateReal.panic # "" \/ e.stateTwin.panic # "" THEN <<"Inv.CallCompletes">>
   ELSE LET fs == SelectSeq([f \in 1..NF |-> IF SameField(e.stateReal, e.stateTwin, f) THEN 0 ELSE f], LAMBDA x : x # 0)
-       IN  [k \in 1..Len(fs) |-> TwinTag(fs[k])]
+       IN  [k \in 1..Len(fs) |-> IF revGC /\ FieldName[fs[k]] = "stateWord"
+                                   THEN "Inv.QueriesAsIfNeverExecuted.stateWordAfterCommittedRead" ELSE TwinTag(fs[k])]
 
 BalStr(n) == ToString(n)
 StartCoherent(e) ==
@@ -105,7 +113,8 @@ StartCoherent(e) ==
   /\ \A a \in 1..2 : /\ e.state.acct[a].ex = m.acct[a].ex /\ e.state.acct[a].nonce = m.acct[a].nonce
                      /\ e.state.acct[a].code = m.acct[a].code /\ e.state.acct[a].st = m.acct[a].st
                      /\ e.state.acct[a].sui = m.acct[a].sui /\ e.state.acct[a].bal = BalStr(m.acct[a].bal)
-                     /\ e.state.acct[a].ft = BalStr(m.acct[a].ftOwn) /\ e.state.acct[a].ss = 0
+                     /\ e.state.acct[a].ft = BalStr(m.acct[a].ftOwn) /\ e.state.acct[a].ss = m.acct[a].ss
+                     /\ e.state.acct[a].ssC = m.acct[a].ss
   /\ e.state.refund = 0 /\ e.state.logs = <<0, 0>> /\ e.state.tr = <<0, 0>>
   /\ e.state.bind = <<FALSE, 0>> /\ ~e.state.bindEx
 
@@ -129,7 +138,7 @@ Restored(e) ==
 
 TraceInit == /\ start = 1 /\ st = <<>> /\ snaps = <<>> /\ nextId = 0 /\ hist = <<>> /\ surv = <<>>
              /\ l = 1 /\ bad = <<>> /\ stats = [f \in 1..(NF + 2) |-> 0] /\ tainted = FALSE
-             /\ ntouch = 0 /\ revTouch = FALSE
+             /\ ntouch = 0 /\ revTouch = FALSE /\ ngc = 0 /\ revGC = FALSE
 
 TraceNext ==
   /\ l <= Len(Trace)
@@ -143,12 +152,15 @@ TraceNext ==
          /\ start' = IF e.event = "Reset" THEN e.a ELSE start
          /\ snaps' = CASE e.event \in {"Reset", "FIN", "Final"} -> <<>>
                        [] e.event = "Cut" -> snaps
-                       [] e.event = "SNAP" -> Append(snaps, <<e.id, e.state, ntouch>>)
+                       [] e.event = "SNAP" -> Append(snaps, <<e.id, e.state, ntouch, ngc>>)
                        [] e.event = "REV" -> SubSeq(snaps, 1, IF SnapIndex(e.id) = 0 THEN Len(snaps) ELSE SnapIndex(e.id) - 1)
                        [] OTHER -> snaps
          /\ nextId' = IF e.event = "SNAP" THEN e.id + 1 ELSE IF e.event = "Reset" THEN 0 ELSE nextId
          /\ UNCHANGED <<hist, surv>>
          /\ ntouch' = IF e.event = "Reset" THEN 0 ELSE IF e.event = "AF" /\ e.x = 0 THEN ntouch + 1 ELSE ntouch
+         /\ ngc' = IF e.event = "Reset" THEN 0 ELSE IF e.event = "GC" THEN ngc + 1 ELSE ngc
+         /\ revGC' = IF e.event = "Reset" THEN FALSE
+                     ELSE revGC \/ (e.event = "REV" /\ SnapIndex(e.id) # 0 /\ snaps[SnapIndex(e.id)][4] < ngc)
          /\ revTouch' = IF e.event = "Reset" THEN FALSE
                         ELSE revTouch \/ (e.event = "REV" /\ SnapIndex(e.id) # 0 /\ snaps[SnapIndex(e.id)][3] < ntouch)
          /\ bad' = bad \o Fresh(e.event, j)
